@@ -771,7 +771,7 @@ Definition endConv (now : N) : M result :=
         else ret ([], 0)) IN
   (if prev =? c_plainText then ret tt
    else modify (fun c => c <| c_resendMsgs := [] |> <| c_mayRetransmit := c_noRetransmit |>)) ;;;
-  modify (fun c => (c <| c_lastMsgStateChange := None |> <| c_ake := None |> <| c_msgState := c_plainText |> <| c_keys := ((set_oldMACKeys (set_macHistory (set_counters (c_keys c) []) []) []) <| ourKeyID := 0 |> <| theirKeyID := 0 |> <| ourCurrent := None |> <| ourPrevious := None |> <| theirCurrent := match theirCurrent (c_keys c) with Some _ => Some 0 | None => None end |> <| theirPrevious := None |>) |>)) ;;;
+  modify (fun c => (c <| c_lastMsgStateChange := None |> <| c_ake := None |> <| c_msgState := c_plainText |> <| c_version := 0 |> <| c_keys := ((set_oldMACKeys (set_macHistory (set_counters (c_keys c) []) []) []) <| ourKeyID := 0 |> <| theirKeyID := 0 |> <| ourCurrent := None |> <| ourPrevious := None |> <| theirCurrent := match theirCurrent (c_keys c) with Some _ => Some 0 | None => None end |> <| theirPrevious := None |>) |>)) ;;;
   (if prev =? c_encrypted then event (evSec c_GoneInsecure) else ret tt) ;;;
   fun c ev => ({| r_plain := None; r_out := fst r; r_err := snd r; r_events := ev; r_extra := None |}, c, ev).
 
